@@ -140,11 +140,16 @@ impl State for FileState {
                 .with_error_context(|error| format!("{FILE_STATE_PARSE_ERROR} index. {error}"))
                 .map_err(|_| IggyError::InvalidNumberEncoding)?;
             total_size += 8;
-            if entries_count > 0 && index != current_index + 1 {
+            // The indexes are consecutive and start from 0, otherwise some entries are missing, duplicated or reordered.
+            let expected_index = if entries_count == 0 {
+                0
+            } else {
+                current_index + 1
+            };
+            if index != expected_index {
                 error!(
                     "State file is corrupted, expected index: {}, got: {}",
-                    current_index + 1,
-                    index
+                    expected_index, index
                 );
                 return Err(IggyError::StateFileCorrupted);
             }
@@ -206,6 +211,10 @@ impl State for FileState {
                 .map_err(|_| IggyError::InvalidNumberEncoding)?
                 as usize;
             total_size += 4;
+            if context_length as u64 > file_size.saturating_sub(total_size) {
+                error!("State file is corrupted, context length: {context_length} exceeds the file size.");
+                return Err(IggyError::StateFileCorrupted);
+            }
             let mut context = BytesMut::with_capacity(context_length);
             context.put_bytes(0, context_length);
             reader
@@ -229,6 +238,10 @@ impl State for FileState {
                 .map_err(|_| IggyError::InvalidNumberEncoding)?
                 as usize;
             total_size += 4;
+            if command_length as u64 > file_size.saturating_sub(total_size) {
+                error!("State file is corrupted, command length: {command_length} exceeds the file size.");
+                return Err(IggyError::StateFileCorrupted);
+            }
             let mut command = BytesMut::with_capacity(command_length);
             command.put_bytes(0, command_length);
             reader
@@ -250,12 +263,20 @@ impl State for FileState {
             entry_command.put_u32_le(command_length as u32);
             entry_command.extend(command_payload);
             let command = entry_command.freeze();
-            EntryCommand::from_bytes(command.clone()).with_error_context(|error| {
-                format!("{COMPONENT} (error: {error}) - failed to parse entry command from bytes")
-            })?;
             let calculated_checksum = StateEntry::calculate_checksum(
                 index, term, leader_id, version, flags, timestamp, user_id, &context, &command,
             );
+            // Verify the checksum before the command is parsed, the parsers trust the lengths they read.
+            if calculated_checksum != checksum {
+                return Err(IggyError::InvalidStateEntryChecksum(
+                    calculated_checksum,
+                    checksum,
+                    index,
+                ));
+            }
+            EntryCommand::from_bytes(command.clone()).with_error_context(|error| {
+                format!("{COMPONENT} (error: {error}) - failed to parse entry command from bytes")
+            })?;
             let entry = StateEntry::new(
                 index,
                 term,
